@@ -29,7 +29,7 @@ EXHAUSTIVE_SUBSPACES = ["all non-empty observation subsets for circuits with <= 
 ASSUMPTIONS = ["reference interpreter vf/ref.py", "observations are in-domain values of the observed variable"]
 FLOOR = {"cc:fold>1:TorchEvidenceLayer": 1, "obs:partial": 1, "obs:complete": 1, "concat>=3": 1, "concat:same-twice": 1,
          "in:evidence:CategoricalLayer": 1, "in:evidence:GaussianLayer": 1, "in:evidence:PolynomialLayer": 1,
-         "in:evidence:EmbeddingLayer": 1, "in:evidence:BinomialLayer": 1, "then:integrate": 1, "values_compared": 500}
+         "in:evidence:EmbeddingLayer": 1, "in:evidence:BinomialLayer": 1, "then:integrate": 1, "values_compared": 500, "second-round-eval-mode": 1}
 
 
 def plan(tier, seed):
@@ -100,53 +100,62 @@ def run_case(case) -> Result:
     vseed, vcls = rng.getrandbits(32), (rng.choice(["init", "normal"]) if not mono else rng.choice(["init", "posonly"]))
     pool = gen.random_inputs(nrng, domains, 5)
     for fold, opt in flags:
-        tag = C.flag_name(fold, opt)
-        comp = C.new_compiler(sr, fold, opt)
-        if C.compile_in(res, comp, c, f"operand [{tag}]") is None:
-            continue
-        if vcls != "init":
+      comp = C.new_compiler(sr, fold, opt)
+      if C.compile_in(res, comp, c, f"operand [{C.flag_name(fold, opt)}]") is None:
+          continue
+      # two rounds on the same compiled objects: the second one in eval() mode after an in-place
+      # update of the operand (caches keyed on the constant observation must not survive it)
+      for rnd in range(2):
+        tag = C.flag_name(fold, opt) + (" round2-eval-mode" if rnd else "")
+        if rnd:
+            res.features.add("second-round-eval-mode")
+            for _, _, e_, _ in derived:
+                if comp.is_compiled(e_):
+                    comp.get_compiled_circuit(e_).eval()
+            tie.revalue(comp, c, np.random.default_rng(vseed + 17), "posonly" if mono else "normal")
+        elif vcls != "init":
             tie.revalue(comp, c, np.random.default_rng(vseed), vcls)
         if sr == "lse-sum" and not C.monotone_ok(c, comp):
             continue
         for z, obs, e, nxt in derived:
-            ce = C.compile_in(res, comp, e, f"evidence over {z} [{tag}]")
-            if ce is None:
-                continue
-            res.features |= {f for f in structs.compiled_features(ce) if "Evidence" in f}
-            Xo = pool.copy().astype(np.float64 if any(isinstance(v, float) for v in obs.values()) or pool.dtype.kind == "f" else pool.dtype)
-            for v, val in obs.items():
-                Xo[:, v] = val
-            r, a = C.reference(c, comp, Xo)
-            if not np.all(np.isfinite(a)):
-                continue
-            full = len(z) == len(ids)
-            if full:
-                Xe, r, a = None, r[0], a[0]
-            else:
-                Xe = pool.copy()
-                for v in z:  # observed columns must not be read any more
-                    Xe[:, v] = 1.0e3 if Xe.dtype.kind == "f" else gen.GARBAGE_DISC
-            for B in ([None] if full else [Xe.shape[0], 1]):
-                xe = Xe if B is None else Xe[:B]
-                rr = r if B is None or full else r[:B]
-                aa = a if B is None or full else a[:B]
-                C.check_expected(res, ce, xe, rr, aa, sr, f"{tag} {vcls} evidence{obs} B={B}", vclass="evidence-mismatch", obs=str(obs))
-            if nxt is not None:
-                from vf import brute
+              ce = C.compile_in(res, comp, e, f"evidence over {z} [{tag}]")
+              if ce is None:
+                  continue
+              res.features |= {f for f in structs.compiled_features(ce) if "Evidence" in f}
+              Xo = pool.copy().astype(np.float64 if any(isinstance(v, float) for v in obs.values()) or pool.dtype.kind == "f" else pool.dtype)
+              for v, val in obs.items():
+                  Xo[:, v] = val
+              r, a = C.reference(c, comp, Xo)
+              if not np.all(np.isfinite(a)):
+                  continue
+              full = len(z) == len(ids)
+              if full:
+                  Xe, r, a = None, r[0], a[0]
+              else:
+                  Xe = pool.copy()
+                  for v in z:  # observed columns must not be read any more
+                      Xe[:, v] = 1.0e3 if Xe.dtype.kind == "f" else gen.GARBAGE_DISC
+              for B in ([None] if full else [Xe.shape[0], 1]):
+                  xe = Xe if B is None else Xe[:B]
+                  rr = r if B is None or full else r[:B]
+                  aa = a if B is None or full else a[:B]
+                  C.check_expected(res, ce, xe, rr, aa, sr, f"{tag} {vcls} evidence{obs} B={B}", vclass="evidence-mismatch", obs=str(obs))
+              if nxt is not None:
+                  from vf import brute
 
-                z2, ei = nxt
-                bm = brute.marginal(c, tie.leaf_reader(comp), domains, Xo, z2)
-                ci = C.compile_in(res, comp, ei, f"integrate after evidence [{tag}]")
-                if bm is not None and ci is not None:
-                    val, sca, B = bm
-                    rest = set(ids) - set(z) - set(z2)
-                    if not rest:
-                        C.check_expected(res, ci, None, val[0], sca[0], sr, f"{tag} integrate(evidence{obs},{z2})", "quad", vclass="evidence-then-integrate-mismatch")
-                    else:
-                        Xi = pool[:B].copy()
-                        for v in list(z) + list(z2):
-                            Xi[:, v] = 1.0e3 if Xi.dtype.kind == "f" else gen.GARBAGE_DISC
-                        C.check_expected(res, ci, Xi, val, sca, sr, f"{tag} integrate(evidence{obs},{z2})", "quad", vclass="evidence-then-integrate-mismatch")
+                  z2, ei = nxt
+                  bm = brute.marginal(c, tie.leaf_reader(comp), domains, Xo, z2)
+                  ci = C.compile_in(res, comp, ei, f"integrate after evidence [{tag}]")
+                  if bm is not None and ci is not None:
+                      val, sca, B = bm
+                      rest = set(ids) - set(z) - set(z2)
+                      if not rest:
+                          C.check_expected(res, ci, None, val[0], sca[0], sr, f"{tag} integrate(evidence{obs},{z2})", "quad", vclass="evidence-then-integrate-mismatch")
+                      else:
+                          Xi = pool[:B].copy()
+                          for v in list(z) + list(z2):
+                              Xi[:, v] = 1.0e3 if Xi.dtype.kind == "f" else gen.GARBAGE_DISC
+                          C.check_expected(res, ci, Xi, val, sca, sr, f"{tag} integrate(evidence{obs},{z2})", "quad", vclass="evidence-then-integrate-mismatch")
     return res
 
 
